@@ -27,6 +27,7 @@ CONSTANTS Uris, Texts,
           InlineOpen, InlineChange, InlineClose,  \* mined: handled inline on the main loop?
           Outside,          \* uris outside the workspace root (not analysed) until a reload loads a config listing their directory as a library
           CfgAddsLib,       \* TRUE: the config change delivered by a "cfg" message adds that library directory
+          RenameClears,     \* mined/observed: didRenameFiles clears the pushed diagnostics of the old uri
           InitOpen,         \* uris already open (text InitText, analysed, diagnostics published) when the behaviour starts
           EnableReindex     \* emmyrc workspace.enableReindex (didSave schedules a debounced full reindex)
 
@@ -79,6 +80,7 @@ Woke(ts, ts2) == Runnable(ts2) \ Runnable(ts)
 Msgs == [kind : MsgKinds \cap {"open", "change"}, uri : Uris, text : Texts]
           \cup [kind : MsgKinds \cap {"close", "watch", "wdel", "save"}, uri : Uris, text : {None}]
           \cup [kind : MsgKinds \cap {"cfg"}, uri : {None}, text : {None}]
+          \cup [kind : MsgKinds \cap {"rename"}, uri : Uris, text : Uris]     \* didRenameFiles old -> new (text = new uri)
 
 \* task record; `sleep` > 0 while waiting for a timer; pc = Done when finished
 NewTask(kind, uri, text, inline, pc, sleep) ==
@@ -118,13 +120,17 @@ Deliver(m) ==
   /\ m.kind = "open" => ~ClientOpen(m.uri)
   /\ m.kind \in {"change", "close", "save"} => ClientOpen(m.uri)
   /\ m.kind = "cfg" => NCfg < MaxCfg
+  /\ m.kind = "rename" => (m.uri # m.text /\ disk[m.uri] # Absent /\ disk[m.text] = Absent
+                           /\ ~ClientOpen(m.uri) /\ ~ClientOpen(m.text))   \* the client renamed the file on disk first
   /\ script' = Append(script, m)
   /\ tasks' = Append(tasks, NewTask(m.kind, m.uri, m.text, Inline(m.kind), 1, 0))
   /\ mainBusy' = IF Inline(m.kind) THEN Len(tasks) + 1 ELSE 0
   /\ hist' = Append(hist, [a |-> "deliver", kind |-> m.kind, uri |-> m.uri, text |-> m.text,
                            inline |-> Inline(m.kind), woke |-> {Len(tasks) + 1}, lib |-> (cfgLib \/ (m.kind = "cfg" /\ CfgAddsLib)),
-                           st |-> Proj(wmOpen, vfs, published, disk)])
-  /\ UNCHANGED <<wmOpen, wmVer, vfs, disk, published, diagTok, wsTok, cfgTok, rxTok, reloadGen, reloadLock,
+                           st |-> Proj(wmOpen, vfs, published,
+                                       IF m.kind = "rename" THEN [disk EXCEPT ![m.uri] = Absent, ![m.text] = disk[m.uri]] ELSE disk)])
+  /\ disk' = IF m.kind = "rename" THEN [disk EXCEPT ![m.uri] = Absent, ![m.text] = disk[m.uri]] ELSE disk
+  /\ UNCHANGED <<wmOpen, wmVer, vfs, published, diagTok, wsTok, cfgTok, rxTok, reloadGen, reloadLock,
                  anR, anW, wmR, nDisk, late, inc, inWs>>
   /\ cfgLib' = (cfgLib \/ (m.kind = "cfg" /\ CfgAddsLib))
 
@@ -155,6 +161,7 @@ ParkedAt(t) ==
   CASE t.kind \in {"open", "change"} ->
          (CASE t.pc = 1 -> <<"an", "R">> [] t.pc = 2 -> <<"wm", "R">> [] t.pc = 3 -> <<"wm", "W">>
             [] t.pc = 4 -> <<"an", "W">> [] t.pc = 6 -> <<"wm", "R">> [] OTHER -> <<"diag_tokens", "M">>)
+    [] t.kind = "rename" -> (CASE t.pc = 2 -> <<"wm", "R">> [] t.pc = 3 -> <<"an", "W">> [] OTHER -> <<"an", "R">>)
     [] t.kind = "save" -> (CASE t.pc = 1 -> <<"an", "R">> [] OTHER -> <<"wm", "R">>)
     [] t.kind = "reindex" -> (CASE t.pc = 1 -> <<"wm", "R">> [] t.pc = 2 -> <<"an", "W">> [] OTHER -> <<"ws_diag_token", "M">>)
     [] t.kind = "close" -> (CASE t.pc = 1 -> <<"wm", "W">> [] t.pc = 2 -> <<"an", "W">> [] OTHER -> <<"an", "R">>)
@@ -276,6 +283,25 @@ WatchStep(i) == LET t == tasks[i] u == t.uri IN
         /\ tasks' = ts2 /\ diagTok' = [diagTok EXCEPT ![u][t.gen] = Len(ts2)]
      /\ anW' = 0 /\ wmR' = wmR \ {i}
      /\ UNCHANGED <<wmOpen, wmVer, vfs, published, anR, cfgTok>>
+
+\* --- didRenameFiles (old uri in t.uri, new uri in t.text) ---------------------------------------------
+RenameStep(i) == LET t == tasks[i] old == t.uri new == t.text IN
+  \/ /\ t.pc = 1 /\ CanAnR        \* collect rename infos: only files the analysis knows
+     /\ tasks' = IF vfs[old] = Absent THEN Finish(tasks, i) ELSE Goto(tasks, i, 2)
+     /\ UNCHANGED <<vfs, published, wmR>>
+  \/ /\ t.pc = 2 /\ CanWmR        \* workspace_manager read lock held over the update
+     /\ wmR' = wmR \cup {i}
+     /\ tasks' = Goto(tasks, i, 3)
+     /\ UNCHANGED <<vfs, published>>
+  \/ /\ t.pc = 3 /\ CanAnW(i)     \* remove the old file, load the new one from disk unless it is open in the editor
+     /\ vfs' = [vfs EXCEPT ![old] = Absent,
+                           ![new] = IF wmOpen[new] = None /\ disk[new] # Absent THEN disk[new] ELSE vfs[new]]
+     /\ published' = IF RenameClears THEN [published EXCEPT ![old] = Empty] ELSE published
+     /\ wmR' = wmR \ {i}
+     /\ tasks' = Goto(tasks, i, 4)
+  \/ /\ t.pc = 4 /\ CanAnR        \* try_modify_require_path: nothing requires these files
+     /\ tasks' = Finish(tasks, i)
+     /\ UNCHANGED <<vfs, published, wmR>>
 
 \* --- didSave -> debounced full reindex -------------------------------------------------------------
 SaveStep(i) == LET t == tasks[i] IN
@@ -411,6 +437,9 @@ Step(i) ==
         /\ late' = IF tasks[i].pc = 4 THEN {} ELSE late
         /\ (tasks[i].pc # 2 => UNCHANGED inWs)
         /\ UNCHANGED <<disk, diagTok, cfgTok, rxTok, reloadGen, nDisk>>
+     \/ /\ k = "rename" /\ RenameStep(i)
+        /\ UNCHANGED <<wmOpen, wmVer, disk, diagTok, wsTok, cfgTok, rxTok, reloadGen, reloadLock,
+                       anR, anW, nDisk, late>>
      \/ /\ k = "save" /\ SaveStep(i)
         /\ UNCHANGED <<wmOpen, wmVer, vfs, disk, published, diagTok, wsTok, cfgTok, reloadGen, reloadLock,
                        anR, anW, wmR, nDisk, late>>
@@ -494,5 +523,6 @@ Emit == (Quiescent /\ Len(script) > Cardinality(InitOpen)) =>
                                      kinds |-> [i \in 1..Len(tasks) |-> tasks[i].kind],
                                      c27 |-> C27, c29 |-> C29, c30 |-> C30, reindex |-> EnableReindex, initOpen |-> InitOpen, outside |-> Outside, inWs |-> inWs,
                                      late |-> late, hadReload |-> HadReload, disk |-> disk,
+                                     disk0 |-> [u \in Uris |-> IF u \in OnDisk THEN Disk0 ELSE Absent],
                                      script |-> script])>>)
 =============================================================================
